@@ -733,6 +733,28 @@ def _raised(out):
     return out[0] != "ok"
 
 
+class _Injected(np.linalg.LinAlgError):
+    pass
+
+
+def call_with_raising(name, k, fn, *args):
+    """run fn(*args) with the backend function `name` (lstsq / solve) raising a LinAlgError at its k-th call (0-based)"""
+    import tensorly.backend as TB
+    orig = getattr(TB, name)
+    cnt = [0]
+
+    def bad(*a, **kw):
+        cnt[0] += 1
+        if cnt[0] - 1 == k:
+            raise _Injected(f"injected failure of {name} (call {k})")
+        return orig(*a, **kw)
+    setattr(TB, name, bad)
+    try:
+        return call(fn, *args)
+    finally:
+        setattr(TB, name, orig)
+
+
 def rprm_lit(kind, params):
     """(n_iter_max, [the other constructor parameters as numbers]) -- the Prm of KRegSeq"""
     ranks = [params["weight_rank"]] if kind == "cp" else list(params["weight_ranks"])
@@ -740,11 +762,12 @@ def rprm_lit(kind, params):
     return f"({C.nat(int(params['n_iter_max']))}, {C.q_list(nums)})"
 
 
-def reg_seq_program(rng, kind):
-    """two data sets of different per-sample shape, initial constructor parameters, a list of operations"""
+def reg_seq_program(rng, kind, loop=False):
+    """two data sets of different per-sample shape, initial constructor parameters, a list of operations
+    (loop: the fits are re-computed by the model's own loop -- per-sample order >= 2 as in the loop cases, fewer extra calls)"""
     cp = kind == "cp"
     def mkdata(like=None):
-        order = rng.choice([1, 2, 3]) if cp else rng.choice([2, 3])
+        order = (rng.choice([1, 2, 3]) if not loop else rng.choice([2, 2, 3])) if cp else rng.choice([2, 3])
         sx = tuple(rng.randint(2, 3) for _ in range(order))
         so = rng.choice([(), (2,), (2, 2)]) if cp else ()
         if order == 1 and so == ():
@@ -763,10 +786,11 @@ def reg_seq_program(rng, kind):
     ops = [("predict", "A"), ("get",), ("fit", "A"), ("predict", "A"), ("predict_train", "A"),
            ("set", {"n_iter_max": 0}), ("fit", "B"), ("predict", "A"),
            ("set", dict(n_iter_max=rng.randint(1, 3), reg_W=rng.choice([0.25, 2.0]), **rk(B))), ("get",), ("fit", "B"), ("predict", "B"), ("predict", "A"),
-           ("fit_bad", "B"), ("predict", "B"), ("set", rk(A)), ("fit", "A"), ("predict", "A"), ("fit", "C"), ("predict", "A"), ("predict_train", "C")]
+           ("fit_bad", "B"), ("predict", "B"), ("set", rk(A)), ("fit", "A"), ("predict", "A"), ("fit_raise", "C", rng.randint(0, 3)), ("predict", "A"),
+           ("fit", "C"), ("predict", "A"), ("predict_train", "C")]
     pool = [("fit", "A"), ("fit", "B"), ("fit", "C"), ("predict", "A"), ("predict", "B"), ("set", {"n_iter_max": 0}), ("set", {"n_iter_max": rng.randint(1, 3)}),
-            ("set", {"random_state": rng.randint(0, 10 ** 6)}), ("get",), ("fit_bad", "A")]
-    for _ in range(rng.randint(3, 7)):
+            ("set", {"random_state": rng.randint(0, 10 ** 6)}), ("get",), ("fit_bad", "A"), ("fit_raise", "A", rng.randint(0, 5))]
+    for _ in range(rng.randint(3, 7) if not loop else rng.randint(0, 2)):
         op = rng.choice(pool)
         if op[0] == "fit" and not cp:
             ops.append(("set", rk(B if op[1] == "B" else A)))       # Tucker: the ranks must fit the order of the data
@@ -775,7 +799,36 @@ def reg_seq_program(rng, kind):
     return dict(A=A, B=B, C=Cd, params=params, ops=ops)
 
 
-def reg_seq_case(prog, kind):
+def fit_data_literal(Cls, cp, cur, d, y):
+    """the data of one fit for the model's own loop (KRegSeqZ): tape of iterates from fresh runs with n_iter_max = 1..N and no
+    stopping, the initial factors replayed from the seeded generator -> literal or None (non-finite)"""
+    import tensorly as tl
+    N = int(cur["n_iter_max"])
+    its = []
+    for k in range(1, N + 1):
+        kw = dict(cur); kw.update(n_iter_max=k, tol=-1.0)
+        st, r = call(lambda: Cls(**kw).fit(d["X"].copy(), y.copy()))
+        if st != "ok":
+            return None
+        blocks = r.cp_weight_ if cp else r.tucker_weight_
+        if not finite_ok(np.asarray(blocks[0]), *[np.asarray(f) for f in blocks[1]]):
+            return None
+        its.append(blocks)
+    g = tl.check_random_state(cur["random_state"])
+    tol, reg = C.q(float(cur["tol"])), C.q(float(cur["reg_W"]))
+    if cp:
+        R = cur["weight_rank"]
+        W0 = [g.randn(dd, R) for dd in d["X"].shape[1:]] + [g.randn(dd, R) for dd in y.shape[1:]]
+        tape = lst(lst(qt(f) for f in b[1]) for b in its)
+        return f"FDcp {tol} {reg} {C.nat(R)} {C.nat_list(tuple(y.shape[1:]))} {qt(d['X'])} {qt(y)} {lst(qt(f) for f in W0)} {tape}"
+    ranks = list(cur["weight_ranks"])
+    G0 = g.randn(*ranks)
+    W0 = [g.randn(dd, q) for dd, q in zip(d["X"].shape[1:], ranks)]
+    tape = lst(f"({qt(b[0])}, {lst(qt(f) for f in b[1])})" for b in its)
+    return f"FDtk {tol} {reg} {qt(d['X'])} {qt(y)} {qt(G0)} {lst(qt(f) for f in W0)} {tape}"
+
+
+def reg_seq_case(prog, kind, loop=False):
     """run the program on ONE object; every fit is also run on a FRESH object with the parameters in force (its exposed
     blocks are the answer the model's fit returns).  -> (status, coq case, predicate failures)"""
     from tensorly.regression.cp_regression import CPRegressor
@@ -786,19 +839,31 @@ def reg_seq_case(prog, kind):
     r = Cls(**cur)
     fits, calls, exp, bad = [], [], [], []
     for op in prog["ops"]:
-        if op[0] in ("fit", "fit_bad"):
+        if op[0] in ("fit", "fit_bad", "fit_raise"):
             d = prog[op[1]]
-            y = d["y"] if op[0] == "fit" else np.concatenate([d["y"], d["y"][:1]])     # fit_bad: one target too many
+            y = d["y"] if op[0] != "fit_bad" else np.concatenate([d["y"], d["y"][:1]])     # fit_bad: one target too many
             before = getattr(r, "weight_tensor_", None)
-            st_f, fresh = call(lambda: Cls(**cur).fit(d["X"].copy(), y.copy()))
-            out = call(r.fit, d["X"].copy(), y.copy())
+            if op[0] == "fit_raise":              # T.solve raises (LinAlgError) at its op[2]-th call: nothing may be bound
+                st_f, fresh = "raised", None
+                out = call_with_raising("solve", op[2], r.fit, d["X"].copy(), y.copy())
+                if not _raised(out):
+                    st_f, fresh = call(lambda: Cls(**cur).fit(d["X"].copy(), y.copy()))      # the injected call was never reached
+            else:
+                st_f, fresh = call(lambda: Cls(**cur).fit(d["X"].copy(), y.copy()))
+                out = call(r.fit, d["X"].copy(), y.copy())
             if st_f == "ok":
                 blocks = fresh.cp_weight_ if cp else fresh.tucker_weight_
                 if not finite_ok(np.asarray(blocks[0]), *[np.asarray(f) for f in blocks[1]]):
                     return "non-finite", None, []
-                fits.append(f"(Some ({qt(blocks[0])}, {lst(qt(f) for f in blocks[1])}))")
+                if loop:
+                    fd = fit_data_literal(Cls, cp, cur, d, y)
+                    if fd is None:
+                        return "non-finite", None, []
+                    fits.append(fd)
+                else:
+                    fits.append(f"(Some ({qt(blocks[0])}, {lst(qt(f) for f in blocks[1])}))")
             else:
-                fits.append("None")
+                fits.append("FDraise" if loop else "None")
             calls.append(f"RFit {C.nat(len(fits) - 1)}")
             exp.append("ORaise" if _raised(out) else "OSelf")
             if _raised(out) and before is not None and getattr(r, "weight_tensor_", None) is not before:
@@ -830,7 +895,10 @@ def reg_seq_case(prog, kind):
             out = call(r.get_params)
             calls.append("RGetParams")
             exp.append("ORaise" if _raised(out) else f"OParams {rprm_lit(kind, out[1])}")
-    case = f"KRegSeq {C.boolc(cp)} {rprm_lit(kind, prog['params'])} {lst(fits)} {lst(calls)} {lst(exp)}"
+    if loop:
+        case = f"KRegSeqZ {rprm_lit(kind, prog['params'])} {lst(fits)} {lst(calls)} {lst(exp)}"
+    else:
+        case = f"KRegSeq {C.boolc(cp)} {rprm_lit(kind, prog['params'])} {lst(fits)} {lst(calls)} {lst(exp)}"
     return "ok", case, bad
 
 
@@ -865,10 +933,13 @@ def plsr_seq_program(rng):
            ("set", {"n_iter_max": 0}), ("fit", "B"), ("predict", "B"), ("transform", "B"), ("predict", "A"),
            ("set", {"n_iter_max": rng.randint(1, 3), "n_components": rng.randint(1, B["cmax"])}), ("fit_transform", "B"), ("predict", "B"), ("transform_xy", "B"),
            ("transform_bad_y", "B", rng.choice(["Y3d", "cols"])),
-           ("set", {"n_components": kA}), ("fit", "A"), ("predict", "A"), ("fit", "C"), ("predict", "A"), ("transform_train", "C"), ("transform_xy_train", "C")]
+           ("set", {"n_components": kA}), ("fit", "A"), ("predict", "A"), ("transform_xy_one", "A"), ("transform_xy_mismatch", "A"),
+           ("fit_raise", "C", rng.randint(0, max(0, kA - 1))), ("predict", "A"), ("transform", "A"), ("transform_xy", "A"),
+           ("fit", "C"), ("predict", "A"), ("transform_train", "C"), ("transform_xy_train", "C")]
     pool = [("fit", "A"), ("fit", "B"), ("fit", "C"), ("fit_transform", "A"), ("predict", "A"), ("predict", "B"), ("transform", "A"), ("transform_xy", "B"),
             ("set", {"n_iter_max": 0}), ("set", {"n_iter_max": rng.randint(1, 2)}), ("set", {"n_components": rng.randint(0, min(A["cmax"], B["cmax"]))}),
-            ("fit_bad", "B", rng.choice(["uncoupled", "vectorX", "Y3d"])), ("transform_train", "B")]
+            ("fit_bad", "B", rng.choice(["uncoupled", "vectorX", "Y3d"])), ("transform_train", "B"), ("fit_raise", "A", rng.randint(0, 1)),
+            ("transform_xy_one", "B"), ("transform_xy_mismatch", "A")]
     for _ in range(rng.randint(2, 6)):
         ops.append(rng.choice(pool))
     ops.append(("predict", rng.choice("AB")))
@@ -890,7 +961,7 @@ def plsr_seq_case(prog):
         return f"PTensor {qt(v)}"
     for op in prog["ops"]:
         d = prog[op[1]] if len(op) > 1 and isinstance(op[1], str) else None
-        if op[0] in ("fit", "fit_transform", "fit_bad"):
+        if op[0] in ("fit", "fit_transform", "fit_bad", "fit_raise"):
             X, Y = d["X"], d["Y"]
             if op[0] == "fit_bad":
                 if op[2] == "uncoupled":
@@ -910,9 +981,21 @@ def plsr_seq_case(prog):
             else:
                 it, bt = "[]", "[]"
             fn = r.fit_transform if op[0] == "fit_transform" else r.fit
-            out = call(fn, X.copy(), Y.copy())
-            calls.append(f"{'QFitTransform' if op[0] == 'fit_transform' else 'QFit'} {qt(X)} {qt(Y)} {it} {bt}")
-            exp.append("PSelf" if (not _raised(out) and op[0] != "fit_transform") else outlit(out))
+            if op[0] == "fit_raise":          # lstsq raises (LinAlgError) at component op[2]: the columns written so far stay
+                out = call_with_raising("lstsq", op[2], fn, X.copy(), Y.copy())
+                calls.append(f"QFitRaise {C.nat(op[2])} {qt(X)} {qt(Y)} {it} {bt}")
+                exp.append("PSelf" if not _raised(out) else "PRaise")
+                if _raised(out):
+                    fitted = None
+                    if hasattr(r, "coef_") and hasattr(r, "X_factors"):
+                        st_p, pz = call(r.predict, d["Xn"].copy()); st_t, tz = call(r.transform, d["Xn"].copy())
+                        if cur["n_iter_max"] > 0 and (st_p != "ok" or st_t != "ok" or not close(pz, np.asarray(tz) @ np.asarray(r.coef_) @ np.asarray(r.Y_factors[1]).T + np.asarray(r.Y_mean_), 1e-8)):
+                            bad.append(("C19_plsr_predict", "after a fit interrupted by a raising lstsq predict != transform @ coef_ @ Y_factors[1].T + Y_mean_ of the exposed (partly filled) attributes"))
+                    continue
+            else:
+                out = call(fn, X.copy(), Y.copy())
+                calls.append(f"{'QFitTransform' if op[0] == 'fit_transform' else 'QFit'} {qt(X)} {qt(Y)} {it} {bt}")
+                exp.append("PSelf" if (not _raised(out) and op[0] != "fit_transform") else outlit(out))
             if not _raised(out):
                 fitted = (op[1], cur["n_components"])
                 if op[0] == "fit_transform" and not (isinstance(out[1], tuple) and close(out[1][0], r.X_factors[0], 1e-8) and close(out[1][1], r.Y_factors[0], 1e-8)):
@@ -939,8 +1022,12 @@ def plsr_seq_case(prog):
             if op[0] == "transform_train" and fitted is not None and fitted[0] == op[1] and cur["n_components"] <= fitted[1]:
                 if _raised(out) or not close(out[1], np.asarray(r.X_factors[0])[:, :cur["n_components"]], 1e-8):
                     bad.append(("C19_plsr_transform_train", f"transform(X_train) with n_components = {cur['n_components']} (fitted {fitted[1]}) != the leading fitted score columns"))
-        elif op[0] in ("transform_xy", "transform_xy_train", "transform_bad_y"):
+        elif op[0] in ("transform_xy", "transform_xy_train", "transform_bad_y", "transform_xy_one", "transform_xy_mismatch"):
             Xq, Yq = (d["X"], d["Y"]) if op[0] == "transform_xy_train" else (d["Xn"], d["Yn"])
+            if op[0] == "transform_xy_one":           # one X sample against all training targets: NumPy broadcasts the in-place update
+                Xq, Yq = d["X"][:1], d["Y"]
+            elif op[0] == "transform_xy_mismatch":    # 2 samples against >= 4 targets: no broadcast
+                Xq, Yq = d["X"][:2], d["Y"]
             if op[0] == "transform_bad_y":
                 Yq = np.stack([np.atleast_2d(Yq.T).T] * 2, axis=2) if op[2] == "Y3d" else np.concatenate([np.atleast_2d(Yq.T).T] * 2, axis=1)
             out = call(r.transform, Xq.copy(), Yq.copy())
@@ -952,10 +1039,12 @@ def plsr_seq_case(prog):
 
 
 def seq_problems(tier, rng):
-    n = 3 if tier == "quick" else 30
+    n = 2 if tier == "quick" else 30
     out = []
     for k in range(n):
         out.append(dict(kind="reg_seq", which="cp" if k % 2 == 0 else "tucker", gen_seed=rng.randint(0, 10 ** 9)))
+    for k in range(2 if tier == "quick" else 12):     # every fit of the sequence re-computed by the model's own fit loop
+        out.append(dict(kind="reg_seq", which="cp" if k % 2 == 0 else "tucker", gen_seed=rng.randint(0, 10 ** 9), loop=True))
     for k in range(n):
         out.append(dict(kind="plsr_seq", gen_seed=rng.randint(0, 10 ** 9)))
     return out
@@ -965,8 +1054,8 @@ def seq_eval(p):
     """-> (status, coq case, predicate failures, program)"""
     g = random.Random(p["gen_seed"])
     if p["kind"] == "reg_seq":
-        prog = reg_seq_program(g, p["which"])
-        return reg_seq_case(prog, p["which"]) + (prog,)
+        prog = reg_seq_program(g, p["which"], bool(p.get("loop")))
+        return reg_seq_case(prog, p["which"], bool(p.get("loop"))) + (prog,)
     prog = plsr_seq_program(g)
     return plsr_seq_case(prog) + (prog,)
 
@@ -1521,6 +1610,25 @@ Proof. vm_compute. reflexivity. Qed.
 """
 
 
+LOOP_BOX = """
+From Coq Require Import ZArith.
+From TLV Require Import Corr.Common.
+(* fallback: the regenerated loop and stored attributes against the model's on a finite box -- blocks = pass counter, the norm after
+   pass j read from a table (all tables of length 6 over {1, 2, 4, 9}), tolerances 0-2 (integer division), budgets 0-7 *)
+Definition ext (l : list (list Z)) : list (list Z) := flat_map (fun s => map (fun d => d :: s) [1; 2; 4; 9]%Z) l.
+Definition tables : list (list Z) := ext (ext (ext (ext (ext (ext [[]]))))).
+Definition proj (r : res (reg_full (F:=Z) (P:=nat))) : list Z :=
+  match r with Ok x => Z.of_nat (rf_n_iterations x) :: Z.of_nat (r_blocks (rf_stored x)) :: rf_norm_W x ++ data (r_weight_tensor (rf_stored x)) | Err => [] end.
+Lemma loop_TAG_box :
+  forallb (fun tbl => forallb (fun tol => forallb (fun n =>
+    let rebuild := fun w : nat => mk [1] [nth w tbl 1%Z] in
+    let nrm := fun t : tensor Z => nth 0 (data t) 0%Z in
+    z_list_eqb (proj (fit_TAG Zops S rebuild nrm tol n 0)) (proj (reg_fit_full S rebuild nrm (rel_small Zops tol) n 0)))
+    (seq 0 8)) [0; 1; 2]%Z) tables = true.
+Proof. vm_compute. reflexivity. Qed.
+"""
+
+
 def generate_source_groups(repo):
     """-> list of (group name, file proving the universal lemmas, fallback file (finite box, vm_compute) or None)"""
     import os
@@ -1528,9 +1636,11 @@ def generate_source_groups(repo):
     plsr = gen_plsr(os.path.join(R, "cp_plsr.py"))
     pred = gen_predict(os.path.join(R, "cp_regression.py"), os.path.join(R, "tucker_regression.py"))
     pred_defs = pred[:pred.index("Lemma predict_cp_src_ok")]
+    cpl = gen_regressor(os.path.join(R, "cp_regression.py"), "CPRegressor", "cp", "cp_to_tensor", "cp_to_vec", "cp_weight_")
+    tkl = gen_regressor(os.path.join(R, "tucker_regression.py"), "TuckerRegressor", "tk", "tucker_to_tensor", "tucker_to_vec", "tucker_weight_")
     return [("CP_PLSR shape tests and pre-loop attributes", SRC_HEADER + plsr + PLSR_LEMMAS, SRC_HEADER + plsr + PLSR_BOX),
-            ("CPRegressor.fit loop", SRC_HEADER + gen_regressor(os.path.join(R, "cp_regression.py"), "CPRegressor", "cp", "cp_to_tensor", "cp_to_vec", "cp_weight_"), None),
-            ("TuckerRegressor.fit loop", SRC_HEADER + gen_regressor(os.path.join(R, "tucker_regression.py"), "TuckerRegressor", "tk", "tucker_to_tensor", "tucker_to_vec", "tucker_weight_"), None),
+            ("CPRegressor.fit loop", SRC_HEADER + cpl, SRC_HEADER + cpl[:cpl.index("Lemma loop_cp_ok")] + "End Src_cp.\n" + LOOP_BOX.replace("TAG", "cp")),
+            ("TuckerRegressor.fit loop", SRC_HEADER + tkl, SRC_HEADER + tkl[:tkl.index("Lemma loop_tk_ok")] + "End Src_tk.\n" + LOOP_BOX.replace("TAG", "tk")),
             ("predict of both regressors", SRC_HEADER + pred, SRC_HEADER + pred_defs + PREDICT_BOX)]
 
 
@@ -1586,6 +1696,64 @@ def source_tie(chk):
         chk.cov["source_derived_lemmas"] = res
     finally:
         shutil.rmtree(d, ignore_errors=True)
+
+
+def dtype_probes(chk, rng):
+    """non-float64 inputs (outside the Coq model, implementation-only predicates): float32 and int64 data through both regressors
+    (predict == contraction with the exposed weight_tensor_ == reconstruction of the exposed factors, at the precision of the dtype);
+    integer-valued new data through a float64-fitted CP_PLSR (recorded, see build/fix_candidates/C19_plsr_integer_input.md:
+    today predict / transform raise a casting error; once they accept integers the values are compared with the float64 call)"""
+    from tensorly.regression.cp_regression import CPRegressor
+    from tensorly.regression.tucker_regression import TuckerRegressor
+    res = {}
+    for kind in ("cp", "tucker"):
+        for dt, rt in ((np.float32, 2e-4), (np.int64, 1e-8)):
+            n, sx = rng.randint(4, 7), (rng.randint(2, 3), rng.randint(2, 3))
+            X = dyadic(rng, (n,) + sx, denom=1 if dt is np.int64 else 8).astype(dt)
+            y = dyadic(rng, (n,), denom=1 if dt is np.int64 else 8).astype(dt)
+            seed = rng.randint(0, 10 ** 6)
+            mk = (lambda: CPRegressor(weight_rank=2, n_iter_max=3, random_state=seed, verbose=0)) if kind == "cp" else \
+                 (lambda: TuckerRegressor(weight_ranks=[2, 1], n_iter_max=3, random_state=seed, verbose=0))
+            try:
+                st, r = call(lambda: mk().fit(X.copy(), y.copy()))
+            except Skip:
+                continue
+            key = f"{kind}/{np.dtype(dt).name}"
+            if st != "ok":
+                res[key] = "fit raised"
+                continue
+            W = np.asarray(r.weight_tensor_, dtype=np.float64)
+            blocks = r.cp_weight_ if kind == "cp" else r.tucker_weight_
+            fs = [np.asarray(f, dtype=np.float64) for f in blocks[1]]
+            full = cp_full(np.asarray(blocks[0], dtype=np.float64), fs) if kind == "cp" else tucker_full(np.asarray(blocks[0], dtype=np.float64), fs)
+            stp, pr = call(r.predict, X.copy())
+            inp = {"kind": kind, "X": X, "y": y, "rank": 2 if kind == "cp" else [2, 1], "reg": 1, "seed": seed, "n_iter": 3, "Xn": X[:2], "dtype": np.dtype(dt).name}
+            if not finite_ok(W, full):
+                res[key] = "non-finite"
+                continue
+            if not close(W, full, rt) or not close(np.asarray(r.vec_W_, dtype=np.float64), W.reshape(-1), 1e-12):
+                chk.finding(ENTRY[kind], inp, f"{np.dtype(dt).name} data: weight_tensor_ / vec_W_ are not the reconstruction of the exposed factors", "C19_weight_is_reconstruction")
+            if stp != "ok" or not close(np.asarray(pr, dtype=np.float64), contract(X.astype(np.float64), W), rt):
+                chk.finding(ENTRY[kind], inp, f"{np.dtype(dt).name} data: predict != tensordot(X, weight_tensor_)", "C19_predict_is_contraction")
+            res[key] = "ok"
+            chk.count(key=("dtype_probe", key), nontrivial=True)
+    # CP_PLSR fitted on float64, asked about integer-valued new data
+    X = dyadic(rng, (6, 2, 3), denom=8); Y = X.reshape(6, -1) @ dyadic(rng, (6, 2), denom=4) + 0.25 * dyadic(rng, (6, 2), denom=8)
+    Xi = np.array([rng.randint(-9, 9) for _ in range(12)], dtype=np.int64).reshape(2, 2, 3)
+    try:
+        st, r = call(fit_plsr_opts, X, Y, 1, 2, 0.0)
+        if st == "ok":
+            ref = call(r.predict, Xi.astype(np.float64)); got = call(r.predict, Xi.copy())
+            if got[0] == "ok":
+                if ref[0] != "ok" or not close(got[1], ref[1], 1e-12):
+                    chk.finding(ENTRY["plsr"], {"kind": "plsr_int", "X": X, "y": Y, "Xn": Xi}, "predict(integer-valued X) != predict(the same values as float64)", "C19_plsr_predict")
+                res["plsr/int64 new data"] = "ok"
+            else:
+                res["plsr/int64 new data"] = "raises: " + str(got[1])[:90] + " (reported: build/fix_candidates/C19_plsr_integer_input.md)"
+    except Skip:
+        pass
+    chk.cov["dtype_probes"] = res
+    chk.cov["integer_input_probe"] = res.get("plsr/int64 new data", "not run")
 
 
 # ----------------------------------------------------------------------------- driver
@@ -1651,6 +1819,7 @@ def run(chk):
     chk.broken = [b for b in chk.broken if not (str(b.get("what", "")).endswith("depends on non-stdlib axioms") and b.get("detail") == ["Axioms"])]
     C.reset_backends()
     source_tie(chk)
+    dtype_probes(chk, random.Random(chk.seed + 19))
     cases, meta = [], []
     # 1. exact predict cases
     for kind, W, X in z_predict_cases(chk.tier, rng):
